@@ -493,12 +493,16 @@ import lib_arb2_real as R
 LATE = 1.0
 
 
-def reload_scenario(cls, phase, hups=1, bind="unix", new_workers=3, d=1.6, two_binds=False, resize=None, swap_app=False):
+def reload_scenario(cls, phase, hups=1, bind="unix", new_workers=3, d=1.6, two_binds=False, resize=None, swap_app=False, drop_workers=False):
     """-> (failures, trace).  failures starting with KNOWN:<key> are reported under that key.
     resize: "ttin" / "ttou" sent to the master (and the pool left to follow) before anything else: the reload must give
     the newly configured number of workers whatever the number was before
     swap_app: the application is named by `wsgi_app` in the configuration file and the (last) reload names another one: the new
-    workers run the new configuration - all of it"""
+    workers run the new configuration - all of it
+    drop_workers: before the (last) HUP the `workers` line is REMOVED from the configuration file: the newly configured number is
+    the built-in default, 1"""
+    if drop_workers:
+        new_workers = 1
     fails, tr = [], []
     srv = R.Server(worker_class=cls, workers=2, graceful=6, bind=bind, marker="m0", keepalive=8, second_bind=two_binds,
                    app_in_conf=swap_app)
@@ -542,6 +546,9 @@ def reload_scenario(cls, phase, hups=1, bind="unix", new_workers=3, d=1.6, two_b
         for h in range(hups):
             marker = "m%d" % (h + 1)
             changes = dict(workers=new_workers if h == hups - 1 else 2, raw_env=["GV_MARKER=%s" % marker])
+            if drop_workers and h == hups - 1:
+                del changes["workers"]
+                srv.settings.pop("workers", None)
             if swap_app and h == hups - 1:
                 changes["wsgi_app"] = "gvapp2:app"
             srv.write_conf(**changes)
@@ -611,7 +618,8 @@ def run_real(ctx):
                 ("gevent", "app", 1, "unix", 2, 1.6, True), ("eventlet", "app", 1, "tcp", 2, 1.6, True),
                 ("gthread", "app", 1, "unix", 2, 1.6, True), ("sync", "resp", 1, "unix", 2, 1.6, True),
                 ("sync", "app", 1, "unix", 2, 1.6, False, "ttin"), ("gthread", "keep", 1, "tcp", 2, 1.6, False, "ttou"),
-                ("sync", "head", 2, "unix", 3, 1.6, False, None, True)]
+                ("sync", "head", 2, "unix", 3, 1.6, False, None, True),
+                ("sync", "idle", 1, "unix", 1, 1.6, False, None, False, True)]
     else:
         scns = []
         for cls in ("sync", "gthread", "gevent", "eventlet"):
@@ -626,6 +634,7 @@ def run_real(ctx):
             scns.append((cls, "resp", 1, "unix", 3, 1.6, False, "ttin"))
             scns.append((cls, "app", 1, "tcp", 2, 1.6, False, None, True))
             scns.append((cls, "idle", 2, "unix", 3, 1.6, False, None, True))
+            scns.append((cls, "app", 1, "unix", 1, 1.6, False, None, False, True))
     results = [None] * len(scns)
 
     def work(i):
